@@ -623,6 +623,11 @@ func (c *hCtx) walkSelector(e *ast.SelectorExpr, write bool) string {
 }
 
 func (c *hCtx) walkCall(call *ast.CallExpr) string {
+	if sel, ok := call.Fun.(*ast.SelectorExpr); ok {
+		if id, ok := sel.X.(*ast.Ident); ok && id.Name == "atomic" && id.Obj == nil {
+			return "" // sync/atomic access: synchronised, not a data race
+		}
+	}
 	for _, a := range call.Args {
 		c.walkExpr(a, false)
 	}
